@@ -11,6 +11,7 @@
 import MpirProofs.Props.C04_allocsafe2
 import MpirProofs.Lemmas.AllocSafeIor2
 import MpirProofs.Lemmas.AllocSafeBit2
+import MpirProofs.Lemmas.AllocSafeCfdiv
 namespace Mpir.AllocSafe
 open Mpir
 
@@ -134,5 +135,23 @@ example : (mpz_combit ex3 1 200).ok = true ∧ view ((mpz_combit ex3 1 200).h 1)
 example : (mpz_combit ex3 0 1).ok = true ∧ view ((mpz_combit ex3 0 1).h 0) = ⟨1, 1, [5]⟩ := by decide
 -- negative: `MPZ_REALLOC (d, dsize)` without the `+ 1` — `dp[dsize] = c` is outside the block
 example : (combit 0 ex3 2 5).ok = false := by decide
+
+/-! ## mpz_cdiv_q_2exp / mpz_fdiv_q_2exp (mpz/cfdiv_q_2exp.c): mirrored (Mpir/Model/AllocSafeMpz3.lean `cfdiv_q_2exp`) and tied by
+    ops `as3_cdiv_q_2exp`, `as3_fdiv_q_2exp`; NO theorem yet.  Full statement to prove (shape of mpz_tdiv_q_2exp_alloc_safe):
+      `Safe s (mpz_cdiv_q_2exp s w u cnt) w (Spec ..) ∧ toInt (view ((mpz_cdiv_q_2exp s w u cnt).h w)) = ⌈toInt u / 2^cnt⌉`
+    (floor for fdiv); what it has to establish: `MPZ_REALLOC (w, wsize + 1)` covers `wp[wsize] = cy` after the rounding
+    `mpn_add_1`, `PTR(w)[0] = 1` of the `wsize <= 0` case needs no realloc (alloc ≥ 1), the `round` loop reads `up[0, limb_cnt)`
+    before anything is stored (in place).  Proved so far (MpirProofs/Lemmas/AllocSafeCfdiv.lean): `roundTail_spec`, the rounding
+    tail cfdiv_q_2exp.c:74-89 on `wsize + 1` limbs of room.  Executions of the model: -/
+
+-- ⌈(B^2-1) / 2^64⌉ = B: the rounding carries into a new top limb; into the one-limb destination (grown 1 → 2) and in place …
+example : (mpz_cdiv_q_2exp ex 0 1 64).ok = true ∧ view ((mpz_cdiv_q_2exp ex 0 1 64).h 0) = ⟨2, 2, [0, 1]⟩ := by decide
+example : (mpz_cdiv_q_2exp ex 1 1 64).ok = true ∧ view ((mpz_cdiv_q_2exp ex 1 1 64).h 1) = ⟨2, 2, [0, 1]⟩ := by decide
+-- … ⌊(B^2-1) / 2^64⌋ = B - 1 into the one-limb destination (the `+ 1` limb is requested whether or not it is used)
+example : (mpz_fdiv_q_2exp ex 0 1 64).ok = true ∧ view ((mpz_fdiv_q_2exp ex 0 1 64).h 0) = ⟨2, 1, [B - 1]⟩ := by decide
+-- ⌈1 / 2^200⌉ = 1, ⌊-(B^2) / 2^200⌋ = -1: `PTR(w)[0] = 1` without any reallocation
+example : view ((mpz_cdiv_q_2exp ex 0 2 200).h 0) = ⟨1, 1, [1]⟩ ∧ view ((mpz_fdiv_q_2exp ex3 0 1 200).h 0) = ⟨1, -1, [1]⟩ := by decide
+-- negative: `MPZ_REALLOC (w, wsize)` without the "+1 limb to allow for mpn_add_1 below" — `wp[wsize] = cy` is outside the block
+example : (cfdiv_q_2exp 0 ex 0 1 64 1).ok = false := by decide
 
 end Mpir.AllocSafe
